@@ -45,7 +45,9 @@ func c01Small(c *Ctx) {
 	if fn := c.fn(pkgGraphql, "shouldIncludeNode"); fn != nil {
 		cd := an.ControlDeps(fn)
 		var lookups []*ssa.Call
-		for _, call := range an.CallsIn(fn, func(_ ssa.CallInstruction, ci an.CalleeInfo) bool { return strings.HasSuffix(ci.FullName(), "ast.DirectiveList).ForName") }) {
+		for _, call := range an.CallsIn(fn, func(_ ssa.CallInstruction, ci an.CalleeInfo) bool {
+			return strings.HasSuffix(ci.FullName(), "ast.DirectiveList).ForName")
+		}) {
 			if cc, ok := call.(*ssa.Call); ok {
 				lookups = append(lookups, cc)
 			}
